@@ -34,6 +34,8 @@ pub enum Op {
     Advance(u64),
     /// Task `id` starts acquiring `p` permits and gives up at the same clock instant, before anything else happens.
     AcquireCancel(usize, usize),
+    /// Several tasks start acquiring within one step, in this (arrival) order.
+    Burst(Vec<(usize, usize)>),
 }
 
 #[derive(Debug, Clone, Serialize, Deserialize, Hash)]
@@ -67,6 +69,17 @@ fn gen_case(ch: &mut Choices) -> Case {
             9 => {
                 next += 1;
                 Op::AcquireCancel(next - 1, 1 + ch.below(burst))
+            }
+            8 => {
+                let k = 2 + ch.below(4);
+                let v: Vec<(usize, usize)> = (0..k)
+                    .map(|_| {
+                        live.push(next);
+                        next += 1;
+                        (next - 1, 1 + ch.below(burst))
+                    })
+                    .collect();
+                Op::Burst(v)
             }
             5 | 6 if !live.is_empty() => Op::Release(ch.pick(&live)),
             _ => Op::Advance(match ch.below(7) {
@@ -128,12 +141,31 @@ async fn run_program(case: &Case, skip: &BTreeSet<usize>, drain: bool) -> Result
             .iter()
             .flat_map(|op| match op {
                 Op::AcquireCancel(id, p) => vec![Op::Acquire(*id, *p), Op::Cancel(*id)],
+                Op::Burst(v) => {
+                    // all but the last are marked "no barrier" by a zero-length advance sentinel handled below
+                    let mut out = vec![];
+                    for (k, (id, p)) in v.iter().enumerate() {
+                        out.push(Op::Acquire(*id, *p));
+                        if k + 1 < v.len() {
+                            out.push(Op::Burst(vec![]));
+                        }
+                    }
+                    out
+                }
                 o => vec![o.clone()],
             })
             .collect();
+        let mut skip_barrier_after: Vec<bool> = vec![false; expanded.len()];
+        for i in 0..expanded.len() {
+            if matches!(&expanded[i], Op::Burst(v) if v.is_empty()) && i > 0 {
+                skip_barrier_after[i - 1] = true;
+                skip_barrier_after[i] = true;
+            }
+        }
         for (i, op) in expanded.iter().enumerate() {
             match op {
                 Op::AcquireCancel(..) => unreachable!(),
+                Op::Burst(_) => continue,
                 Op::Acquire(id, p) => {
                     if skip.contains(id) {
                         continue;
@@ -186,6 +218,9 @@ async fn run_program(case: &Case, skip: &BTreeSet<usize>, drain: bool) -> Result
                     }
                 }
                 Op::Advance(ns) => clock.advance(time::Duration::nanoseconds(*ns as i64)),
+            }
+            if skip_barrier_after[i] {
+                continue;
             }
             det::barrier().await;
             step(&tl.lock().unwrap(), &mut holders, &perm, format!("step {i} {op:?}"))?;
@@ -288,6 +323,7 @@ fn check(case: &Case, st: &mut Stats) -> Result<(), String> {
         for op in &case.ops {
             match op {
                 Op::Acquire(..) | Op::AcquireCancel(..) => waiting += 1,
+                Op::Burst(v) => waiting += v.len() as i32,
                 Op::Release(_) if waiting >= 2 => nontrivial = true,
                 _ => {}
             }
